@@ -52,6 +52,7 @@ func (f *Func) Root() *Func {
 }
 
 type Prog struct {
+	inFuncTargets bool // re-entrancy guard of funcLocalTargets
 	Fset    *token.FileSet
 	Pkgs    []*packages.Package // module packages, sorted by path
 	Main    *packages.Package   // the pubsub package
